@@ -442,7 +442,7 @@ def cfgs(tier):
         yield 'SignedMax2 w%d' % w, minmax(SignedMax2, w, lambda a, b: z3.If(a >= b, a, b))
         yield 'SignedMin2 w%d' % w, minmax(SignedMin2, w, lambda a, b: z3.If(a <= b, a, b))
         if w <= 8:
-            for n in (2, 3) if quick else (2, 3, 4):
+            for n in ((2, 3, 4, 5, 6) if w <= 3 else (2, 3, 4)) if quick else (2, 3, 4, 5, 6, 7):
                 yield 'AnyEqual n%d w%d' % (n, w), anyeq(n, w)
         if w <= 4:
             consts = list(range(1 << w))
